@@ -21,7 +21,7 @@ from vf import core
 from vf.ref import excel as ref
 
 ID = 'C15'
-N = {'quick': 6000, 'thorough': 40000}
+N = {'quick': 15000, 'thorough': 150000}
 NT_RULE = ('workbook = sheet name + decoy sheets + comment row or not + header strings + cell matrix, '
            'drawn per case index from a seeded PRNG after a list of directed workbooks; non-trivial = '
            '>=2 data rows, >=1 special column family with a filled cell and >=1 empty cell; distinct = '
